@@ -64,7 +64,7 @@ Definition call_gas_cap (avail requested : N) : N :=
 
 (* operations_acl.go:makeGasSStoreFunc(SstoreClearsScheduleRefundEIP3529 = 4800) after
    the sentry test: given original / current / new value and whether the slot is
-   cold, the gas and the refund-counter change (inl = AddRefund, inr = SubRefund). *)
+   cold, the gas and the refund-counter changes in order (true = AddRefund, false = SubRefund). *)
 Definition sstore_clear_refund : N := 4800.
 Definition sstore_cost_refund (original current value : N) (cold : bool)
   : N * list (bool * N) :=
